@@ -822,9 +822,9 @@ func drvScale(r *rand.Rand, n int) [][]Action {
 		// very long and very deep paths, long last elements
 		st := &symtab{}
 		h := []Action{newAct("", "")}
-		long := strings.Repeat("segment/", 300) + "leaf"
-		wide := "w/" + strings.Repeat("x", 3000)
-		for _, p := range []string{long, long + "2", wide, wide + "y", strings.Repeat("a/", 1200) + "d", "z/" + strings.Repeat("é", 700)} {
+		long := strings.Repeat("segment/", 40) + "leaf"
+		wide := "w/" + strings.Repeat("x", 90)
+		for _, p := range []string{long, long + "2", wide, wide + "y", strings.Repeat("a/", 120) + "d", "z/" + strings.Repeat("é", 60)} {
 			h = append(h, Action{A: "Add", Tree: varQ(p, st.sym(p))})
 		}
 		out = append(out, light(append(h, Action{A: "Render"})))
